@@ -187,4 +187,20 @@ def attachment(rep, idx, c, MON, MUX):
         rep.check(pa[1] is pb[1] and pa[0] == -pb[0], "C14.3", site, what,
                   f"arguments type as {'+' if pa[0] > 0 else '-'}{pa[1].qual} and {'+' if pb[0] > 0 else '-'}{pb[1].qual}; "
                   "connect() needs the same signature with opposite polarity")
-    rep.check(n >= 2, "C14.3", site, "bus and src are wired with connect()", f"{n} connect() call(s)", nontrivial=False)
+    if n >= 2:
+        rep.ok("C14.3", site, "bus and src are wired with connect()", f"{n} connect() call(s)", nontrivial=False)
+    else:
+        # wired by hand: are the port members driven / read at all?  A port nobody touches is the named defect; member-by-member
+        # wiring is another shape, whose completeness the rule does not derive
+        touched = set()
+        for d_ in c.t.drivers:
+            for e_ in (c.norm(d_.target), c.norm(d_.value)):
+                for x in ir.walk(e_):
+                    if x[0] == 'attr' and x[1] == ('name', 'self') and x[2] in ("bus", "src"):
+                        touched.add(x[2])
+        if touched >= {"bus", "src"} or getattr(c.t, "unsupported", None):
+            rep.unk("C14.3", site, "bus and src are wired with connect()", f"{n} connect() call(s); the ports are wired member by member, "
+                    "which the rule does not check for completeness")
+        else:
+            rep.bad("C14.3", site, "bus and src are wired with connect()", f"{n} connect() call(s) and no assignment touches "
+                    f"{sorted({'bus', 'src'} - touched)}: the port is not wired to the inner component")
